@@ -265,19 +265,19 @@ def gen_inputs(ctx, lang):
             for c in tri:
                 add("triple", bytes([a, b2, c]), (0, 0))
     # random bytes
-    for _ in range(2500 * scale):
+    for _ in range(1500 * scale):
         n = rng.choice([1, 2, 3, 4, 5, 8, 13, 21, 40, 64])
         add("random-bytes", bytes(rng.getrandbits(8) for _ in range(n)))
-    for _ in range(2500 * scale):
+    for _ in range(1500 * scale):
         n = rng.randrange(1, 60)
         add("alphabet-bytes", bytes(rng.choice(alphabet) for _ in range(n)))
     # token soups
-    for _ in range(6000 * scale):
+    for _ in range(4000 * scale):
         n = rng.randrange(1, 25)
         sep = rng.choice([b"", b"", b" ", b"\n"])
         add("token-soup", sep.join(rng.choice(pcs) for _ in range(n)))
     cpcs = clean_pieces(lang)
-    for _ in range(5000 * scale):
+    for _ in range(4000 * scale):
         n = rng.randrange(1, 25)
         sep = rng.choice([b" ", b" ", b"\n", b""])
         add("clean-token-soup", sep.join(rng.choice(cpcs) for _ in range(n)), (0, 0))
@@ -291,6 +291,13 @@ def gen_inputs(ctx, lang):
     for _ in range(3000 * scale):
         t = "".join(gen(rng) for _ in range(rng.randrange(1, 3))).encode()
         add("generated-mutated", mutate(rng, t, pcs))
+    for _ in range(60 * scale):
+        t = gen(rng).encode()
+        pos = 0
+        for tok in TOK_RE.findall(t):
+            pos += len(tok)
+            if tok.strip():
+                add("truncated-at-token", t[:pos], (0, 0))
     # repository schemas: whole small files, statement groups, mutations, truncations, CRLF
     texts = corpus(lang)
     stm = statements(texts)
@@ -305,7 +312,7 @@ def gen_inputs(ctx, lang):
             i = rng.randrange(len(stm))
             k = rng.randrange(1, 4)
             add("repo-statements", b"".join(stm[i:i + k]))
-        for _ in range(5000 * scale):
+        for _ in range(4000 * scale):
             i = rng.randrange(len(stm))
             k = rng.choice([1, 1, 2, 3])
             add("repo-mutated", mutate(rng, b"".join(stm[i:i + k]), pcs))
@@ -316,6 +323,15 @@ def gen_inputs(ctx, lang):
                 add("truncated", s[:k], (0, 0))
             for k in range(1, len(s), 3):
                 add("suffix", s[k:], (0, 0))
+        # cut after every token of larger statements (end of input in every parser state)
+        mid = [s for s in stm if 20 <= len(s) <= 500]
+        rng.shuffle(mid)
+        for s in mid[:(60 if quick else 400)]:
+            pos = 0
+            for tok in TOK_RE.findall(s):
+                pos += len(tok)
+                if tok.strip():
+                    add("truncated-at-token", s[:pos], (0, 0))
         for _ in range(600 * scale):
             s = b"".join(stm[rng.randrange(len(stm)):][:rng.randrange(1, 3)])
             r = rng.random()
@@ -507,11 +523,11 @@ def oracle(ctx, ops, go_out):
     return bad
 
 
-def run_check(ctx, lang, props):
+def run_check(ctx, lang, props, family="lex"):
     pid = ctx.pid
     which = "ParseTLFile (TL1)" if lang == 1 else "ParseTL2File (TL2)"
     standard_run(
-        ctx, props=props, family="lex", consts=["Lex"], go_runner=go_runner,
+        ctx, props=props, family=family, consts=["Lex"], go_runner=go_runner,
         gen_ops=lambda c: gen_ops(c, lang), oracle=oracle, corr_name=f"corr:{pid}:lex",
         trusted=["translator tools/genconsts (go/parser; token-type and character constants, section strings of internal/tlast/tllexer.go)",
                  "overlay harness overlay/internal/tlast/verif_lex_test.go and the comparison/oracle in lib/lex_lib.py",
@@ -520,8 +536,6 @@ def run_check(ctx, lang, props):
                      "Go code is modelled, not verified: the lexer model and the control-flow model of the " + which + " parser "
                      "(Lex/LexParse%dModel.v) agree with internal/tlast on every input of the op kinds listed here "
                      "(tokens with positions, tokenizer error, parser verdict, error class, outer/begin/end positions)" % lang,
-                     "the parser model's fuel budget (10 * (tokens + 2)) is checked on every input, not proved, to suffice "
-                     "(the model prints nofuel otherwise, which is a correspondence mismatch)",
                      "AST construction" + (" and Combinator.crc32()" if lang == 1 else "") + " are outside the model: covered by the "
                      "implementation-side oracle only (recover(), error offsets, ConsolePrint / Error() do not panic)"],
         rule="inputs generated from VERIF_SEED; each is lexed and parsed by internal/tlast (rebuilt from /repo with the add-only overlay) "
